@@ -47,7 +47,7 @@ Definition p_unser (p : payload) : bool := match p with PVal _ u _ => u | _ => f
 Definition p_big (p : payload) : bool := match p with PVal _ _ b => b | _ => false end.
 
 (* ---------- messages the callee sends for an invocation ---------- *)
-Inductive uri := UApp (u : N) | URuntime | UInvalidPayload | UPayloadExceeded.
+Inductive uri := UApp (u : N) | URuntime | UInvalidPayload | UPayloadExceeded | UTypeCheck.
 Inductive wmsg :=
 | MYield (req : N) (single : bool) (p : payload) (progress : bool)   (* single: args=[value] ; else args/kwargs=p *)
 | MError (req : N) (u : uri) (p : payload).                          (* ERROR, request_type = INVOCATION *)
@@ -67,14 +67,40 @@ Inductive exn :=
 | EApp (u : N) (p : payload)        (* ApplicationError(uri, *args, **kwargs) *)
 | EOther (cls : N) (p : payload)    (* any other exception class, args = p; URI looked up in [ecls] *)
 | ECancelled                        (* CancelledError made by txaio.cancel *)
+| ETypeCheck                        (* TypeCheckError(ApplicationError) raised by the type_check wrapper: wamp.error.type_check_error *)
 | EInternal.                        (* exception raised inside the endpoint by library/interpreter code,
                                        e.g. details.progress(...) failing, or details.progress being None *)
 Inductive result := ROk (r : retval) | RErr (e : exn).
 Inductive fin := FReturn (r : retval) | FRaise (e : exn) | FPending.     (* FPending: returns a Deferred/Future, or awaits one *)
 Record behaviour := { b_pre : list payload;      (* progressive results emitted (details.progress) before finishing *)
                       b_fin : fin }.
+(* how the INVOCATION's arguments relate to the endpoint's signature (a fact about user code + Python's call rules):
+   SigOk        they bind (whatever the signature kind: fixed, *args, **kwargs, keyword-only, defaults) and match the
+                type hints;
+   SigShort     they do not bind (e.g. too few parameters): the call itself raises TypeError;
+   SigIllTyped  they bind but contradict a type hint (only looked at when registered with check_types=True) *)
+Inductive sigkind := SigOk | SigShort | SigIllTyped.
 Record regd := { r_details : bool;               (* RegisterOptions(details_arg=...) given *)
-                 r_coro : bool }.                (* registered callable is an `async def` *)
+                 r_coro : bool;                  (* registered callable is an `async def` *)
+                 r_check : bool;                 (* register(..., check_types=True): fn = self.type_check(fn) *)
+                 r_sig : sigkind }.
+(* protocol.py type_check(): `async def _type_check( *args, **kwargs)`: inspect.getcallargs(func, *args, **kwargs)
+   (TypeError if they do not bind), isinstance checks against func.__annotations__ (TypeCheckError), then
+   `return await txaio.as_future(func, *args, **kwargs)` -- the identity on well-typed calls.  Without the wrapper
+   an unbindable call raises the same TypeError from the call itself (caught by txaio.as_future).
+   gate_of d = the exception that replaces the endpoint call, if any. *)
+Definition gate_of (d : regd) : option exn :=
+  match r_sig d with
+  | SigOk => None
+  | SigShort => Some EInternal
+  | SigIllTyped => if r_check d then Some ETypeCheck else None
+  end.
+(* the wrapper is a coroutine function: with asyncio the call becomes a Task like any `async def` endpoint *)
+Definition is_coro (d : regd) : bool := r_coro d || r_check d.
+(* ... unless the call of the (unwrapped) `async def` itself fails to bind its arguments: that TypeError is raised by
+   `fun( *args, **kwargs)` inside txaio.as_future, before any coroutine object exists *)
+Definition defers (d : regd) : bool :=
+  is_coro d && (r_check d || match gate_of d with None => true | Some _ => false end).
 
 (* ---------- histories ---------- *)
 Inductive op :=
@@ -106,7 +132,8 @@ Inductive cstate :=
 | CWaking (mc : bool)               (* Aio: inner future done, Task wake-up queued *)
 | CDone                             (* on_reply has a result (its callbacks ran or are queued) *)
 | CNever.                           (* Aio Task cancelled before its body ran: done, and user code never saw the call *)
-Record call := { c_req : N; c_reg : N; c_args : payload; c_det : option (N * bool); c_clos : bool; c_st : cstate }.
+Record call := { c_req : N; c_reg : N; c_args : payload; c_det : option (N * bool); c_clos : bool; c_st : cstate;
+                 c_gate : option exn }.     (* Some e: the endpoint body is not entered, the call raises e (see gate_of) *)
 Inductive qitem := QCb (k : N) (r : result) | QStep (k : N) | QWake (k : N) (r : result).
 Record st := { regs : list (N * regd);       (* self._registrations *)
                invs : list (N * N);          (* self._invocations : request id -> call index *)
@@ -132,7 +159,7 @@ Definition set_cst (k : N) (cs : cstate) (s : st) : st :=
   match alookup k (calls s) with
   | None => s
   | Some c => set_calls s (aset k {| c_req := c_req c; c_reg := c_reg c; c_args := c_args c; c_det := c_det c;
-                                     c_clos := c_clos c; c_st := cs |} (calls s))
+                                     c_clos := c_clos c; c_st := cs; c_gate := c_gate c |} (calls s))
   end.
 Definition cst_of (s : st) (k : N) : option cstate := option_map c_st (alookup k (calls s)).
 
@@ -147,10 +174,11 @@ Definition uri_of (e : exn) : uri :=
   | EApp u _ => UApp u
   | EOther c _ => match alookup c ecls with Some u => UApp u | None => URuntime end
   | ECancelled => URuntime
+  | ETypeCheck => UTypeCheck
   | EInternal => URuntime
   end.
 Definition epayload (e : exn) : payload :=
-  match e with EApp _ p => p | EOther _ p => p | ECancelled => PEmpty | EInternal => PText end.
+  match e with EApp _ p => p | EOther _ p => p | ECancelled => PEmpty | EInternal => PText | ETypeCheck => PText end.
 
 (* success(): reply = Yield(request, args=[res])  |  Yield(request, args=res.results, kwargs=res.kwresults) *)
 Definition yield_of (req : N) (r : retval) : wmsg :=
@@ -246,10 +274,14 @@ Fixpoint run_pre (s : st) (k req : N) (clos : bool) (pre : list payload) : list 
 
 (* the endpoint body up to its first suspension; None = still pending *)
 Definition run_body (s : st) (k : N) (c : call) (b : behaviour) : list out * option result :=
-  let '(o, ok) := run_pre s k (c_req c) (c_clos c) (b_pre b) in
-  (OCalled k (c_req c) (c_reg c) (c_args c) (c_det c) :: o,
-   if ok then match b_fin b with FReturn r => Some (ROk r) | FRaise e => Some (RErr e) | FPending => None end
-   else Some (RErr EInternal)).
+  match c_gate c with
+  | Some e => ([], Some (RErr e))             (* the arguments do not bind / fail the type check: body not entered *)
+  | None =>
+    let '(o, ok) := run_pre s k (c_req c) (c_clos c) (b_pre b) in
+    (OCalled k (c_req c) (c_reg c) (c_args c) (c_det c) :: o,
+     if ok then match b_fin b with FReturn r => Some (ROk r) | FRaise e => Some (RErr e) | FPending => None end
+     else Some (RErr EInternal))
+  end.
 
 Definition run_item (s : st) (q : qitem) : st * list out :=
   match q with
@@ -305,11 +337,12 @@ Definition step (fl : flavour) (s : st) (o : op) : st * list out :=
       let k := nextk s in
       let clos := r_details d && rp in                     (* `if endpoint.details_arg: if msg.receive_progress:` *)
       let det := if r_details d then Some (caller, clos) else None in
-      let mk cs := {| c_req := req; c_reg := reg; c_args := args; c_det := det; c_clos := clos; c_st := cs |} in
+      let mk cs := {| c_req := req; c_reg := reg; c_args := args; c_det := det; c_clos := clos; c_st := cs;
+                      c_gate := gate_of d |} in
       let acc := OAccepted k req reg args caller rp (r_details d) in
       let enter cs (s0 : st) := {| regs := regs s0; invs := aset req k (invs s0); calls := aset k (mk cs) (calls s0);
                                    up := up s0; joined := joined s0; queue := queue s0; nextk := k + 1 |} in
-      match fl, r_coro d with
+      match fl, defers d with
       | Aio, true =>                                        (* loop.create_task(coro): body runs on the next iteration *)
         let s1 := enter (CFresh b false) s in
         (set_queue s1 (queue s1 ++ [QStep k]), [acc])
@@ -347,12 +380,16 @@ Definition step (fl : flavour) (s : st) (o : op) : st * list out :=
       match c_st c with
       | CFresh _ _ => (s, [])                               (* the body has not received its CallDetails yet *)
       | CNever => (s, [])                                   (* ... and never will *)
-      | _ => if c_clos c then
-               match progress_call s (c_req c) p with
-               | (o, None) => (s, o)
-               | (o, Some x) => (s, o ++ [OProgRaised k x])
-               end
-             else (s, [])                                   (* no callable progress: nothing can be sent *)
+      | _ => match c_gate c with
+             | Some _ => (s, [])                            (* the arguments never reached the body: nobody holds its details *)
+             | None =>
+               if c_clos c then
+                 match progress_call s (c_req c) p with
+                 | (o, None) => (s, o)
+                 | (o, Some x) => (s, o ++ [OProgRaised k x])
+                 end
+               else (s, [])                                 (* no callable progress: nothing can be sent *)
+             end
       end
     | None => (s, [])
     end
@@ -373,20 +410,33 @@ End Session.
 Definition classify_ok (classify : wmsg -> sres) : Prop :=
   forall m, classify m = if p_unser (m_payload m) then SerErr else if p_big (m_payload m) then Exceeded else Sent.
 
-(* ---------- the real transports' send(), as far as classification goes ---------- *)
+(* ---------- the real transports' send(), as far as classification goes ----------
+   The serialized length of a message and whether the serializer accepts it are the serializer's business:
+   oracles [msize], [munser].  [limit] is the configured / negotiated maximum. *)
+Section Sized.
+Variable msize : wmsg -> N.
+Variable munser : wmsg -> bool.
 (* wamp/websocket.py WampWebSocketProtocol.send: serialize under `except Exception -> raise SerializationError`;
-   websocket/protocol.py sendMessage: `0 < maxMessagePayloadSize < payload_len -> raise PayloadExceededError` *)
-Definition ws_send (m : wmsg) : sres :=
-  if p_unser (m_payload m) then SerErr else if p_big (m_payload m) then Exceeded else Sent.
+   websocket/protocol.py sendMessage: `if 0 < self.maxMessagePayloadSize < payload_len: raise PayloadExceededError` *)
+Definition ws_send_at (limit : N) (m : wmsg) : sres :=
+  if munser m then SerErr else if (0 <? limit) && (limit <? msize m) then Exceeded else Sent.
 (* twisted/rawsocket.py WampRawSocketProtocol.send: serialize under `except Exception -> raise SerializationError`
-   (4bb5bcbc; before: `except SerializationError` only); `0 < _max_len_send < payload_len -> raise PayloadExceededError` *)
-Definition rs_tx_send (m : wmsg) : sres :=
-  if p_unser (m_payload m) then SerErr else if p_big (m_payload m) then Exceeded else Sent.
+   (4bb5bcbc; before: `except SerializationError` only); `if 0 < self._max_len_send < payload_len: raise PayloadExceededError` *)
+Definition rs_tx_send_at (limit : N) (m : wmsg) : sres :=
+  if munser m then SerErr else if (0 <? limit) && (limit <? msize m) then Exceeded else Sent.
 (* asyncio/rawsocket.py WampRawSocketMixinGeneral.send: serialize under `except Exception -> raise SerializationError`;
-   `payload_len > self.max_length_send -> raise PayloadExceededError` (ad1f12fb; before: sendString's
+   `if payload_len > self.max_length_send: raise PayloadExceededError` (ad1f12fb; before: sendString's
    ValueError("Data too big") came through) *)
-Definition rs_aio_send (m : wmsg) : sres :=
-  if p_unser (m_payload m) then SerErr else if p_big (m_payload m) then Exceeded else Sent.
+Definition rs_aio_send_at (limit : N) (m : wmsg) : sres :=
+  if munser m then SerErr else if limit <? msize m then Exceeded else Sent.
+End Sized.
+(* the payload tokens' flags as a size: a message "of size 2" against the limit 1 is oversized, "of size 1" is not --
+   a message exactly as long as the limit is sent *)
+Definition flag_size (m : wmsg) : N := if p_big (m_payload m) then 2 else 1.
+Definition flag_unser (m : wmsg) : bool := p_unser (m_payload m).
+Definition ws_send : wmsg -> sres := ws_send_at flag_size flag_unser 1.
+Definition rs_tx_send : wmsg -> sres := rs_tx_send_at flag_size flag_unser 1.
+Definition rs_aio_send : wmsg -> sres := rs_aio_send_at flag_size flag_unser 1.
 
 (* transports that do NOT classify correctly -- the two send() implementations as they were before the repairs;
    kept to show that the hypothesis [classify_ok] of C10_one_terminal is needed (and as regression documentation) *)
